@@ -1,6 +1,8 @@
 import PwVerif.Proofs.Recovery
 import PwVerif.Proofs.ExecFin
 import PwVerif.Proofs.Storage
+import PwVerif.Proofs.RecoveryNest
+import PwVerif.Proofs.RecoveryFlow
 import PwVerif.Props.C01
 import PwVerif.Props.C06
 /-!
@@ -338,6 +340,133 @@ theorem C08_checkpoint_mid_partial {cfg d c s rs} (wf : WF d) (rank : Nat → Na
   refine ⟨fun i hm => ?_, fun i hi => h2 i hi rfl, h2 c hcd rfl⟩
   simpa [Fix.sym, Fix.none] using h1 i hm
 
+/-! ## nesting: macros in macros, executors and cuts at ANY depth (over C06's `ExecNest`)
+
+The first run is the nested machine `ExecNest.nrun` (every composite runs `Exec.step` on its own level;
+executor children of any level complete whenever the schedule says); a cut is ANY tree it can reach from a
+fresh one — so also the moment after a checkpoint save deep inside, with children of several levels in
+flight and the composites above in the middle of their loops.  The resumed run is `RecoveryNest.rnrun`. -/
+section nested
+open PwVerif.ExecNest PwVerif.RecoveryNest
+variable {E : Type}
+
+/-- a cut of the nested first run -/
+def NCut (cfg0 : Cfg) (t : Tree E) : Prop :=
+  ∃ t0 acts, NWF t0 ∧ Fresh t0 ∧ nrun cfg0 t0 acts = some t
+
+/-- any state of the nested resumed run -/
+def NResumed (rc : RCfg) (cfg : Cfg) (t : Tree E) (rt : RTree) : Prop :=
+  ∃ acts, rnrun cfg (resumeTree rc t) acts = some rt
+
+theorem nested_inv {cfg0 cfg : Cfg} {rc : RCfg} {t : Tree E} {rt : RTree} (hcut : NCut cfg0 t) (hc : Clean rc)
+    (hr : NResumed rc cfg t rt) : NWF t ∧ NInv cfg0 t ∧ RNInv rc t rt := by
+  obtain ⟨t0, acts, wf0, hf, hrun⟩ := hcut
+  obtain ⟨racts, hrr⟩ := hr
+  obtain ⟨hinv, wf⟩ := nrun_inv cfg0 acts t0 t wf0 (fresh_ninv cfg0 t0 wf0 hf) hrun
+  have hargs := nrun_nargs cfg0 acts t0 t (fresh_nargs t0 hf) hrun
+  exact ⟨wf, hinv, rnrun_inv cfg0 cfg rc t racts _ _ wf hinv (resume_rninv cfg0 rc hc t wf hinv hargs) hrr⟩
+
+/-- the level at path `p` of the cut and of the resumed run, side by side, with its invariant -/
+theorem nested_level {cfg0 cfg : Cfg} {rc : RCfg} {t : Tree E} {rt : RTree} (hcut : NCut cfg0 t) (hc : Clean rc)
+    (hr : NResumed rc cfg t rt) (p : List Nat) (d : Dag) (exc : Nat → E) (s : S) (kids : Nat → Tree E)
+    (hp : t.sub p = .comp d exc s kids) :
+    ∃ rs rk, rt.sub p = .comp (effDag d kids) rs rk ∧ WF (effDag d kids) ∧ Inv cfg0 (effDag d kids) s ∧
+      RInv Fix.none (effDag d kids) (startReceived rc s) (kept s (fun _ => false)) (doneAt s) (rerunOf rc kids) rs := by
+  obtain ⟨wf, hinv, hrn⟩ := nested_inv hcut hc hr
+  have h1 := rninv_sub rc t rt p hrn
+  have h2 := ninv_sub cfg0 t p hinv
+  have h3 := nwf_sub t p wf
+  rw [hp] at h1 h2 h3
+  cases hrt : rt.sub p with
+  | leaf => rw [hrt] at h1; exact absurd h1 (by simp [RNInv])
+  | comp d' rs rk =>
+    rw [hrt] at h1
+    obtain ⟨hd, hR, _⟩ := h1
+    subst hd
+    exact ⟨rs, rk, rfl, wf_eff kids h3.1, h2.1, hR⟩
+
+/-- at every moment of the nested resumed run, at every depth: a child that had completed before the cut
+and can answer from its cache has not been run — a function node always can; a composite child can on the
+code as it is (`keepCompositeCache`), and then NOTHING inside it runs -/
+theorem C08_nested_no_recall {cfg0 cfg : Cfg} {rc : RCfg} {t : Tree E} {rt : RTree} (hcut : NCut cfg0 t)
+    (hc : Clean rc) (hr : NResumed rc cfg t rt) (p : List Nat) (d : Dag) (exc : Nat → E) (s : S)
+    (kids : Nat → Tree E) (hp : t.sub p = .comp d exc s kids) (i : Nat) (hi : s.st i = .done)
+    (hk : rerunOf rc kids i = false) :
+    ∃ rs rk, rt.sub p = .comp (effDag d kids) rs rk ∧ rs.fcalls i = 0 := by
+  obtain ⟨rs, rk, hrt, _, _, hR⟩ := nested_level hcut hc hr p d exc s kids hp
+  exact ⟨rs, rk, hrt, hR.book.fcG i (by simp [kept, doneAt, hi]) hk⟩
+
+/-- … in particular every function node, wherever it sits -/
+theorem C08_nested_leaf_no_recall {cfg0 cfg : Cfg} {rc : RCfg} {t : Tree E} {rt : RTree} (hcut : NCut cfg0 t)
+    (hc : Clean rc) (hr : NResumed rc cfg t rt) (p : List Nat) (d : Dag) (exc : Nat → E) (s : S)
+    (kids : Nat → Tree E) (hp : t.sub p = .comp d exc s kids) (i : Nat) (hi : s.st i = .done)
+    (hl : kids i = .leaf) :
+    ∃ rs rk, rt.sub p = .comp (effDag d kids) rs rk ∧ rs.fcalls i = 0 :=
+  C08_nested_no_recall hcut hc hr p d exc s kids hp i hi (by simp [rerunOf, rerunSet, isComp, hl])
+
+/-- every level whose loop has ended holds, at every child, the value of the plain composition of that
+level; every child is done, none was run twice, the ones that had not completed were run exactly once -/
+theorem C08_nested_same_end {cfg0 cfg : Cfg} {rc : RCfg} {t : Tree E} {rt : RTree} (hcut : NCut cfg0 t)
+    (hc : Clean rc) (hr : NResumed rc cfg t rt) (p : List Nat) (d : Dag) (exc : Nat → E) (s : S)
+    (kids : Nat → Tree E) (hp : t.sub p = .comp d exc s kids) (rank : Nat → Nat)
+    (hrank : ∀ i j, j ∈ d.deps i → rank j < rank i) :
+    ∃ rs rk, rt.sub p = .comp (effDag d kids) rs rk ∧ rs.s.errs = [] ∧ rs.s.phase ≠ .aborted ∧
+      (∀ i, rs.fcalls i ≤ 1) ∧
+      (rs.s.phase = .exited → ∀ i, (effDag d kids).member i →
+        rs.s.st i = .done ∧ rs.s.out i = .app i (headArgs (effDag d kids) rs.s.out i) ∧
+        (s.st i ≠ .done → rs.fcalls i = 1)) := by
+  obtain ⟨rs, rk, hrt, hwf, hI, hR⟩ := nested_level hcut hc hr p d exc s kids hp
+  refine ⟨rs, rk, hrt, hR.core.noErr, hR.notAborted, hR.book.fcLe, ?_⟩
+  intro hex i hm
+  have hd := rexit_all_done hwf rs hR rank (fun i j hj => hrank i j hj) hex i hm
+  have hok := snapOK_of_cut (rc := rc) (fx := Fix.none) (A := fun _ => false) hI.core (RecoveryNest.affected_none _)
+    (Or.inr (fun _ => rfl)) (fun _ _ => rfl)
+  refine ⟨hd, ?_, fun hnd => hR.book.fcN i (by simp [doneAt, hnd]) (by simp [hd])⟩
+  have := rgood_value hok rs hR i (Or.inl hd)
+  simpa [Fix.sym, Fix.none] using this
+
+end nested
+
+/-! ## hand-wired flows (any signal graph: any-of and all-of triggers, `If` branches, cycles — C02's model)
+
+A hand-made flow that failed, was restored and had its failure flags cleared and its cause removed is
+`Signal.compositeRun` from the loaded store with the children's semantics `Signal.runNode` (cache included). -/
+
+/-- the resumed run, which answers from the cache wherever it can, IS the run that executes every function
+again — same outputs, failures, signals, queue, execution order, whatever the shape of the signal graph —
+provided the entries of the loaded store belong to the outputs next to them and functions agree on inputs
+that compare equal (C05's proviso) -/
+theorem C08_flow_resume_transparent (nodes : Nat → Signal.Node) (hnf : ∀ i, (nodes i).failAt = [])
+    (hext : RecoveryFlow.EqExt nodes) (g : Signal.Graph) (fuel : Nat) (st : Signal.Store)
+    (received : Nat → List Signal.Label) (hcv : RecoveryFlow.CacheValid nodes st) :
+    let a := Signal.compositeRun (Signal.nodeSem nodes) g fuel (Signal.S.init st received)
+    let b := Signal.compositeRun (Signal.nodeSem (RecoveryFlow.uncached nodes)) g fuel (Signal.S.init st received)
+    a.store.out = b.store.out ∧ a.store.failed = b.store.failed ∧ a.store.execLog = b.store.execLog ∧
+    a.store.doneLog = b.store.doneLog ∧ a.queue = b.queue ∧ a.errs = b.errs ∧ a.fired = b.fired ∧
+    RecoveryFlow.CacheValid nodes a.store := by
+  have h := RecoveryFlow.flow_resume_transparent nodes hnf hext g fuel st received hcv
+  exact ⟨h.store.1.out, h.store.1.failed, h.store.1.execLog, h.store.1.doneLog, h.queue, h.errs, h.fired, h.store.2⟩
+
+/-- a child whose cache entry equals what it fetches is not executed and keeps its outputs -/
+theorem C08_flow_hit_no_call (nodes : Nat → Signal.Node) (st : Signal.Store) (i : Nat) (c : List Signal.Val)
+    (hu : (nodes i).useCache = true) (hf : st.failed i = false)
+    (hd : (Signal.fetchArgs nodes st.out i).any Signal.Val.isNd = false)
+    (hc : st.cached i = some c) (hb : Signal.Val.beqL c (Signal.fetchArgs nodes st.out i) = true) :
+    (Signal.runNode nodes st i).1.callLog = st.callLog ∧ (Signal.runNode nodes st i).1.out = st.out :=
+  RecoveryFlow.hit_no_call nodes st i c hu hf hd hc hb
+
+/-- non-vacuity: a cycle of two `If` nodes signalling each other, nothing cached yet -/
+def flowIf : Nat → Signal.Node := fun _ => { kind := .ifk, slots := [{ own := .bool true, conns := [] }], useCache := true, failAt := [] }
+def flowG : Signal.Graph :=
+  { conns := fun s => if s == Signal.sigTrue 0 then [{ node := 1, acc := false }]
+                       else if s == Signal.sigTrue 1 then [{ node := 0, acc := false }] else [],
+    accConns := fun _ => [], lab := id, starters := [0], sigs := [] }
+example : RecoveryFlow.EqExt flowIf := RecoveryFlow.eqExt_if flowIf (fun _ => rfl)
+example : RecoveryFlow.CacheValid flowIf Signal.Store.init := by intro i c h; simp [Signal.Store.init] at h
+example : ((Signal.compositeRun (Signal.nodeSem flowIf) flowG 6 (Signal.S.init Signal.Store.init (fun _ => []))).store.callLog.map (·.1),
+           (Signal.compositeRun (Signal.nodeSem flowIf) flowG 6 (Signal.S.init Signal.Store.init (fun _ => []))).fired)
+    = ([0, 1], [0, 1, 0, 1, 0, 1, 0]) := by decide +kernel
+
 /-! ## the file after a HISTORY of cuts (several checkpoints in one run; a failure, a resume, a second failure)
 
 Every cut is saved to the same name; whether plain `pickle` can serialise the graph may change from one
@@ -563,6 +692,35 @@ theorem C08_recovery_root_only (f : Forest) (depth : Nat → Nat) (hr : f.Ranked
     rw [(hkn k0 hk0).2] at this
     simpa using this
 
+/-- asked to raise (the default), the guard with the caller's flag is the guard above -/
+theorem C08_recovery_files_raising (f : Forest) (fuel : Nat) (nodes ks : List Nat) :
+    f.recoveryFilesR (fun _ => true) fuel nodes ks = f.recoveryFiles fuel nodes ks := by
+  simp [Forest.recoveryFilesR, Forest.recoveryFiles]
+
+/-- `run(raise_run_exceptions=False)` on the outermost graph: the run fails (flags as in C06) but NO recovery
+file is written anywhere — the parent-most node is the only one that passes `graph_root is self`, and it
+was asked not to raise -/
+theorem C08_suppressed_no_file (f : Forest) (depth : Nat → Nat) (hr : f.Ranked depth) (fuel : Nat)
+    (raises : Nat → Bool) (nodes ks : List Nat) (hfuel : ∀ n ∈ nodes, depth n ≤ fuel)
+    (hsup : ∀ n, f.parent n = none → raises n = false) :
+    f.recoveryFilesR raises fuel nodes ks = [] := by
+  apply List.filter_eq_nil_iff.mpr
+  intro n hn hp
+  simp only [Forest.writesRecovery, Bool.and_eq_true, beq_iff_eq] at hp
+  obtain ⟨_, hra, _, hroot⟩ := hp
+  have := (f.root_eq_self_iff depth hr fuel n (hfuel n hn)).mp hroot
+  rw [hsup n this] at hra
+  cases hra
+
+/-- the graph left by such a run is resumed in place (clear the failure flags, remove the cause, run
+again): the full statement holds for it, for every cut and every fix, whatever a load would lose -/
+theorem C08_resume_in_place (rc : RCfg) (cfg : Cfg)
+    (h1 : rc.dropInFlight = true) (h2 : rc.cache.clearOnFail = true) (h3 : rc.resetReceived = true) :
+    ResumeStatement rc.inPlace cfg :=
+  statement_of_sound (fun _ _ _ _ _ hA hA0 =>
+    ⟨⟨Or.inl (by simpa [RCfg.inPlace] using h1), Or.inl (by simpa [RCfg.inPlace] using h2)⟩,
+     Or.inl (by simpa [RCfg.inPlace] using h3), hA, hA0⟩)
+
 /-- a checkpoint of any child, however deep, goes to the root's directory as well -/
 theorem C08_checkpoint_at_root (f : Forest) (depth : Nat → Nat) (hr : f.Ranked depth) (fuel c : Nat)
     (hc : depth c ≤ fuel) :
@@ -627,6 +785,65 @@ example : ((rrunActs exFx Cfg.repaired exF.toDag (resumeFrom RCfg.mid exF.toDag 
       (fun r => (r.s.phase, r.s.execLog, [0, 1, 2, 3, 4].map r.fcalls, r.s.out 4)))
     = some (.exited, [0, 2, 1, 4, 3], [0, 0, 1, 1, 1], .app 9 [.app 0 []]) := by decide +kernel
 
+/-! ### nested non-vacuity: `w ⊃ {0 → m → 2}`, `m ⊃ {a (executor), b} → c`; the cut is the moment after `b`
+finished inside `m` (a checkpoint written by `b`): `a` is in flight, `m` is in the middle of its loop -/
+section nestedExample
+open PwVerif.ExecNest PwVerif.RecoveryNest
+
+def nInner : FinDag :=
+  { n := 3, slots := [[], [], [[1], [0]]], down := [[2], [2]], starters := [0, 1],
+    onExec := [true, false, false], fails := [], rank := [0, 0, 1] }
+def nOuter : FinDag :=
+  { n := 3, slots := [[], [[0]], [[1]]], down := [[1], [2], []], starters := [0],
+    onExec := [], fails := [], rank := [0, 1, 2] }
+def nTree : Tree Unit := mkComp nOuter.toDag (fun _ => ()) [(1, mkComp nInner.toDag (fun _ => ()) [])]
+
+theorem nTree_ok : NWF nTree ∧ Fresh nTree := by
+  have h1 := (FinDag.check_sound nInner (by decide +kernel)).1
+  have h2 := (FinDag.check_sound nOuter (by decide +kernel)).1
+  refine ⟨nwf_mkComp _ _ _ h2 ?_, fresh_mkComp _ _ _ ?_⟩
+  · intro x hx
+    simp at hx; subst hx
+    exact nwf_mkComp _ _ _ h1 (by intro y hy; cases hy)
+  · intro x hx
+    simp at hx; subst hx
+    exact fresh_mkComp _ _ _ (by intro y hy; cases hy)
+
+/-- first run up to the cut -/
+def nActs : List (List Nat × Act) := [([], .start), ([], .deliver), ([1], .start), ([1], .start)]
+theorem nSome : (nrun Cfg.repaired nTree nActs).isSome = true := by decide +kernel
+def nCutTree : Tree Unit := (nrun Cfg.repaired nTree nActs).get nSome
+
+example : NCut Cfg.repaired nCutTree := ⟨nTree, nActs, nTree_ok.1, nTree_ok.2, (Option.some_get nSome).symm⟩
+
+def stAt : Tree Unit → List Nat → Nat → Option St
+  | t, p, i => match t.sub p with | .comp _ _ s _ => some (s.st i) | .leaf => none
+def fcAt : RTree → List Nat → Nat → Option Nat
+  | t, p, i => match t.sub p with | .comp _ rs _ => some (rs.fcalls i) | .leaf => none
+def outAt : RTree → List Nat → Nat → Option Val
+  | t, p, i => match t.sub p with | .comp _ rs _ => some (rs.s.out i) | .leaf => none
+def phaseAt : RTree → List Nat → Option Phase
+  | t, p => match t.sub p with | .comp _ rs _ => some rs.s.phase | .leaf => none
+
+example : ([0, 1, 2].map (stAt nCutTree []), [0, 1, 2].map (stAt nCutTree [1]))
+    = ([some .done, some .out, some .idle], [some .out, some .done, some .idle]) := by decide +kernel
+
+/-- the nested resumed run: `0` answers from cache, `m` runs its loop again, inside it `b` answers from cache,
+`a` (which was in flight) and `c` are executed, then `2` -/
+def nRActs : List (List Nat × Act) :=
+  [([], .start), ([], .deliver), ([1], .start), ([1], .start), ([1], .deliver), ([1], .complete 0), ([1], .deliver),
+   ([1], .exit), ([], .complete 1), ([], .deliver), ([], .exit)]
+theorem nRSome : (rnrun Cfg.repaired (resumeTree RCfg.now nCutTree) nRActs).isSome = true := by decide +kernel
+def nRT : RTree := (rnrun Cfg.repaired (resumeTree RCfg.now nCutTree) nRActs).get nRSome
+
+example : NResumed RCfg.now Cfg.repaired nCutTree nRT := ⟨nRActs, (Option.some_get nRSome).symm⟩
+example : (phaseAt nRT [], phaseAt nRT [1], [0, 1, 2].map (fcAt nRT []), [0, 1, 2].map (fcAt nRT [1]))
+    = (some .exited, some .exited, [some 0, some 1, some 1], [some 1, some 0, some 1]) := by decide +kernel
+example : outAt nRT [1] 2 = some (.app 2 [.app 1 [], .app 0 []]) := by decide +kernel
+example : Clean RCfg.now := ⟨rfl, rfl⟩
+
+end nestedExample
+
 /-- two failures in a row on `exF`: the run resumed from `exS` fails again at `3`; the file written then
 (`RS.snapshot`) shows `0, 1, 2, 4` completed and `3` failed; the run resumed from THAT file calls `3` only
 and ends where an uninterrupted run ends -/
@@ -666,6 +883,7 @@ def exForest : Forest :=
 example : exForest.recoveryFiles 3 [0, 1, 2, 3, 4, 5] [5, 1] = [0] := by decide +kernel
 example : [0, 1, 2, 3, 4, 5].filter (exForest.failedNodes 3 [5, 1]) = [0, 1, 2, 4, 5] := by decide +kernel
 example : exForest.checkpointDir 3 5 = 0 := by decide +kernel
+example : exForest.recoveryFilesR (fun n => n != 0) 3 [0, 1, 2, 3, 4, 5] [5, 1] = [] := by decide +kernel
 
 end PwVerif.C08
 
@@ -695,7 +913,15 @@ end PwVerif.C08
 #print axioms PwVerif.C08.C08_original_stale_cache_witness
 #print axioms PwVerif.C08.C08_load_refused_witness
 #print axioms PwVerif.C08.C08_reload_reverses_witness
+#print axioms PwVerif.C08.C08_nested_no_recall
+#print axioms PwVerif.C08.C08_nested_leaf_no_recall
+#print axioms PwVerif.C08.C08_nested_same_end
+#print axioms PwVerif.C08.C08_flow_resume_transparent
+#print axioms PwVerif.C08.C08_flow_hit_no_call
 #print axioms PwVerif.C08.C08_file_holds_last_cut
 #print axioms PwVerif.C08.C08_refail_conservative
+#print axioms PwVerif.C08.C08_recovery_files_raising
+#print axioms PwVerif.C08.C08_suppressed_no_file
+#print axioms PwVerif.C08.C08_resume_in_place
 #print axioms PwVerif.C08.C08_recovery_root_only
 #print axioms PwVerif.C08.C08_checkpoint_at_root
